@@ -170,12 +170,13 @@ func (m *MW) StepCause(ci int) {
 				skipped = true
 				return
 			}
-			if lim.MintingSettings.MaxAmount > 0 && lim.MaxBalance > lim.MintingSettings.MaxAmount {
+			if lim.MintingSettings.MaxAmount > 0 && lim.MaxBalance+1 > lim.MintingSettings.MaxAmount {
 				skipped = true
 				return
 			}
-			// the mint's balance is positive (funding), so a quote for the whole maximum is over it
-			_, r = a.ReqMintQuote(mint, lim.MaxBalance, false)
+			// one more than the whole maximum is over it whatever the current balance is (a melt may
+			// have brought the balance back to zero)
+			_, r = a.ReqMintQuote(mint, lim.MaxBalance+1, false)
 		case "over_max":
 			lim := W.Mints[mint].Cfg.Limits
 			if lim.MintingSettings.MaxAmount == 0 {
@@ -456,6 +457,7 @@ func runC20(rc *RunCtx) {
 	rc.NewMintWorld(ln, opts)
 	rc.W.ShapeCheck = true
 	m := NewMW(rc, "A")
+	m.Locks = true
 	m.Fees = map[string][]uint64{"A": {uint64(fee), 100}}
 	rc.Quietly(func() { m.User.Fund("A", 255); m.User.Fund("A", 100) })
 	cause, hasCause := rc.Spec.Params["cause"]
